@@ -39,8 +39,39 @@ for m in sorted(glob.glob(ROOT + '/seeded/*/meta.json')):
     conf = 'demo clean=%s, with patch=%s, tests=%s/%s' % (c.get('demo_on_clean_tree'), c.get('demo_with_patch'), c.get('existing_tests_root'), c.get('existing_tests_test_module'))
     srows.append(f"| {j['id']} | {esc(j.get('summary',''))[:260]} | {esc(str(j.get('needs','')))[:260]} | {conf} | {esc(dets)[:300]} |")
 seeds = "| seeded change | what it is | what it needs to manifest | confirmation | detected by (check: tier/verdict) |\n|---|---|---|---|---|\n" + "\n".join(srows)
+# status table: per property, from checks/*.py META, evidence/*.json, known-findings.json, seeded/*/meta.json
+import sys, importlib
+sys.path.insert(0, ROOT + '/lib'); sys.path.insert(0, ROOT + '/checks')
+strows = []
+for i in range(1, 31):
+    pid = 'C%02d' % i
+    try:
+        m = importlib.import_module(pid.lower())
+    except Exception as e:
+        strows.append(f"| {pid} | (module error {e}) | | | | |"); continue
+    fams = getattr(m, 'FAMS', None) or []
+    mods = []
+    for f in fams:
+        mods += sorted(os.path.basename(x)[:-4] for x in glob.glob(f'{ROOT}/spec/{f}/*.tla'))
+    if not mods:
+        src = open(f'{ROOT}/checks/{pid.lower()}.py').read()
+        fm = re.findall(r'fams=\[([^\]]*)\]', src)
+        for f in re.findall(r'"(\w+)"', ' '.join(fm)):
+            mods += sorted(os.path.basename(x)[:-4] for x in glob.glob(f'{ROOT}/spec/{f}/*.tla'))
+    ev = {}
+    try: ev = json.load(open(f'{ROOT}/evidence/{pid}.json'))
+    except Exception: pass
+    cov = ev.get('coverage', {})
+    nk = sum(1 for e in K if e['property'] == pid and e['kind'] == 'known')
+    nf = len({e.get('commit') for e in K if e['property'] == pid and e['kind'] == 'fixed'})
+    sd = []
+    for mm in sorted(glob.glob(f'{ROOT}/seeded/{pid}-*/meta.json')):
+        j = json.load(open(mm)); v = j.get('detected_by', {}).get(pid, '')
+        sd.append(os.path.basename(os.path.dirname(mm)) + (':caught' if 'VIOLATION' in v else ':MISSED' if 'missed' in v else ':?'))
+    strows.append(f"| {pid} | {m.META.get('level','')} | {', '.join(dict.fromkeys(mods))[:200]} | {ev.get('tier','')}: states={cov.get('states','')} judged={cov.get('evaluations', cov.get('judged',''))} wall={ev.get('wall_s','')}s | {nf} fix commits, {nk} known | {' '.join(sd)} |")
+status = "| property | level | TLA+ modules | last evidence (tier: states / observations judged / wall) | defects | own seeds |\n|---|---|---|---|---|---|\n" + "\n".join(strows)
 d = open(ROOT + '/DESIGN.md').read()
-for tag, body in (('FINDINGS', findings), ('SEEDS', seeds)):
+for tag, body in (('FINDINGS', findings), ('SEEDS', seeds), ('STATUS', status)):
     a, b = f'<!-- GEN:{tag} -->', f'<!-- /GEN:{tag} -->'
     if a in d:
         i = d.index(a) + len(a); j = d.index(b)
